@@ -232,6 +232,13 @@ __wrap_coap_socket_send(coap_socket_t *sock, coap_session_t *session, const uint
                         size_t datalen) {
   vsock_t *vs = vs_find(sock);
   if (vf_send_fail_countdown > 0 && --vf_send_fail_countdown == 0) {
+    /* the datagram the socket refused: visible to the monitors, absent from the wire */
+    ev_begin("wirefail");
+    ev_int("vs", vs ? vs->id : -1);
+    ev_addr("from", &session->addr_info.local);
+    ev_addr("to", &session->addr_info.remote);
+    ev_hex("b", data, datalen);
+    ev_end();
     errno = ENOBUFS;
     return -1;
   }
